@@ -85,6 +85,7 @@ func c31Edges() {
 	})
 	distinct := map[string]bool{}
 	for i, o := range obs {
+		o.Panic, o.Diverged, o.Setup, o.Anomaly = clean(o.Panic), clean(o.Diverged), clean(o.Setup), clean(o.Anomaly)
 		vio.Emit(o)
 		if o.Diverged == "" && o.Setup == "" {
 			a, _ := json.Marshal(edges[i].Src)
@@ -232,4 +233,19 @@ func sameOntState(a, b *syncState) bool {
 	x, _ := json.Marshal(a)
 	y, _ := json.Marshal(b)
 	return string(x) == string(y)
+}
+
+// clean keeps printable ASCII only (error texts of the code under test may embed raw key bytes; python's splitlines
+// would split an NDJSON line at U+0085 etc.).
+func clean(s string) string {
+	b := []byte(s)
+	for i, c := range b {
+		if c < 0x20 || c > 0x7e {
+			b[i] = '?'
+		}
+	}
+	if len(b) > 600 {
+		b = b[:600]
+	}
+	return string(b)
 }
